@@ -208,7 +208,8 @@ class TriangleBoundary(BoundaryDomain):
         return torch.logical_or(close_to_0, sum_close_to_1).reshape(-1, 1)
 
     def _bary_coords_close_to_0_or_1(self, bary_coord1, bary_coord2):
-        between_0_1 = torch.logical_and(0 <= bary_coord2, bary_coord2 <= 1)
+        # (with the tolerance of the closeness tests, so that corners are accepted)
+        between_0_1 = torch.logical_and(-1e-5 <= bary_coord2, bary_coord2 <= 1 + 1e-5)
         close_to_0 = torch.isclose(bary_coord1, torch.tensor(0.0), atol=1e-5)
         return torch.logical_and(close_to_0, between_0_1)
 
